@@ -1,6 +1,6 @@
 """C13: the request put on the wire matches the connection's protocol (level: other)."""
 import re
-from core import (norm, L_call, L_variant, arms, assigns_to_return, closure_arg_of, sig, const_of, layer_stack, split_type_args, CallSite)
+from core import (norm, L_call, L_variant, arms, assigns_to_return, closure_arg_of, sig, const_of, layer_stack, split_type_args, CallSite, AbsPaths)
 from mir import op_place
 
 META = {
@@ -163,31 +163,31 @@ def C13_2(ctx, facts):
         ctx.check(bool(hs) and bool(pt), "set_host_header|value-from-uri", "the value is built from uri.host() and get_non_default_port(uri)",
                   "the header value does not derive from uri.host() / get_non_default_port: %s" % sorted(map(repr, sig(rets)))[:8], body.where())
         ctx.check(any(r.kind == "call" and r.site.matches(r"HeaderValue.*::from_str$") for r in rets), "set_host_header|value-is-header", "built with HeaderValue::from_str", "value not built by from_str", body.where())
-    p = facts.unit(facts.fn("service::host::get_non_default_port"))
+    # get_non_default_port as a decision table: abstract evaluation of its (expanded) body under every scenario
+    # (port in {absent, 443, 80, other} x scheme secure / not), whatever shape the code has (tuple match, `?` + comparison ...)
+    p = facts.unit(facts.fn("service::host::get_non_default_port"), expand=True)
     ctx.touched(p)
-    ints = set()
-    for (a, b, lab) in p.edges():
-        if lab is not None and lab.kind == "int" and lab.value != "else":
-            ints.add(lab.value)
-    ctx.check(ints >= {"443", "80"} and ints <= {"443", "80", "0", "1"}, "get_non_default_port|table", "default ports recognised are exactly 443 and 80", "ports tested: %s" % sorted(ints), p.where())
-    nones = [b for (k, b, s) in assigns_to_return(p, p.live) if k == "stmt" and s["r"].get("v") == "None"]
-    ctx.floor("get_non_default_port|None-sites", len(nones), 2, "None results")
-    sec = p.calls("service::host::is_schema_secure")
-    ctx.floor("get_non_default_port|secure-test", len(sec), 1, "is_schema_secure call")
-
-    def port_edge(v):
-        return lambda lab: lab.kind == "int" and lab.value == v
-
-    def secure_edge(val):
-        return lambda lab: lab.kind == "bool" and lab.raw is val
-    combos = set()
-    for b in nones:
-        for port in ("443", "80"):
-            for secv in (True, False):
-                if p.guarded(b, port_edge(port))[0] and p.guarded(b, secure_edge(secv))[0]:
-                    combos.add((port, secv))
-    ctx.check(combos == {("443", True), ("80", False)}, "get_non_default_port|pairs", "the port is omitted exactly for (443, secure) and (80, not secure)",
-              "port omitted for %s" % sorted(combos), p.where())
+    some_port = ("variant", "Some", ((0, ("const", "PORT")),))
+    none = ("variant", "None", ())
+    rows = 0
+    for port in (None, 443, 80, 8080):
+        for secure in (True, False):
+            oracles = [(r"Uri::port$", lambda site, vals, port=port: none if port is None else some_port),
+                       (r"Port<.*>::as_u16$|Port::as_u16$", lambda site, vals, port=port: ("const", str(port)) if port is not None else None),
+                       (r"Uri::port_u16$", lambda site, vals, port=port: none if port is None else ("variant", "Some", ((0, ("const", str(port))),))),
+                       (r"service::host::is_schema_secure$", lambda site, vals, secure=secure: ("const", "true" if secure else "false"))]
+            try:
+                outs = AbsPaths(p, oracles=oracles).outcomes()
+            except AbsPaths.Undecided as e:
+                ctx.undecided("get_non_default_port|row|%s,%s" % (port, secure), str(e), p.where())
+                continue
+            rows += 1
+            kinds = sorted({(v[1] if v is not None and v[0] == "variant" else "?") for (v, _) in outs})
+            want = "None" if (port is None or (port == 443 and secure) or (port == 80 and not secure)) else "Some"
+            ctx.check(kinds == [want], "get_non_default_port|row|port=%s,secure=%s" % (port, secure),
+                      "port %s on a %s scheme -> %s" % (port, "secure" if secure else "plain", "no port in Host" if want == "None" else "port kept"),
+                      "port %s on a %s scheme gives %s (expected %s)" % (port, "secure" if secure else "plain", kinds, want), p.where())
+    ctx.floor("get_non_default_port|table-rows", rows, 8, "scenarios evaluated")
     s = facts.unit(facts.fn("service::host::is_schema_secure"))
     lits = _secure_literals(facts, s)
     ctx.check(lits == {"https", "wss"}, "is_schema_secure|literals", "secure schemes are exactly https and wss", "secure schemes: %s" % sorted(lits), s.where())
